@@ -241,6 +241,13 @@ def run(case, rec):
         if raised(tab):
             return rec.check(False, "grid_to_table(DataArray) raised %r" % (tab,))
         _check_table(rec, tab, ("northing", "easting"), north, east, {colname: vals}, extras)
+        if case["nx"]:
+            # the DataArray of an extra coordinate itself (grid.upward): its name is one of its own non-index coordinates (round 9, seed C18-17)
+            tabc = call(rec, vd.grid_to_table, da.coords["upward"])
+            if raised(tabc):
+                rec.check(False, "grid_to_table(grid.upward) raised %r" % (tabc,))
+            else:
+                _check_table(rec, tabc, ("northing", "easting"), north, east, {"upward": extras["upward"]}, {})
         if nn >= 3 or ne >= 3:
             # a SECOND grid in the same process with the same shape, dtypes and first / last axis values but other interior nodes (round 8,
             # seed C18-15: coordinate columns memoised on the end points of the axes): its table must carry its own coordinates
